@@ -150,9 +150,17 @@ class ObjectiveTasksStartLatest(Objective):
             name="MinimumStartTime", expression=smallest_start_time
         )
 
-        # compute the minimum of start times for all tasks
+        # compute the minimum of start times for all tasks. An unscheduled optional
+        # task is moved to the past and must not be taken for the earliest one
+        horizon = processscheduler.base.active_problem._horizon
         assertions = get_minimum(
-            smallest_start_time, [task._start for task in list_of_tasks]
+            smallest_start_time,
+            [
+                z3.If(task._scheduled, task._start, horizon)
+                if task.optional
+                else task._start
+                for task in list_of_tasks
+            ],
         )
         mini_start_time_indicator.append_z3_list_of_assertions(assertions)
 
